@@ -200,15 +200,10 @@ def r4_never_zero(ctx):
     r.floor(len(oks), 1, 'Ok(capacity) construction in poll_capacity')
     for bi, rv in oks:
         cap = canon(f.expr_of_op(rv[3][0]))
-        edges = core.edges_where(F, f, lambda sw: sw.kind == 'cmp' and sw.subject[1] in ('Eq', 'Ne') and canon(sw.subject[2]) == cap and strip(sw.subject[3])[0] == 'const' and strip(sw.subject[3])[1] == 0,
-                                 lambda l: True)
-        good = []
-        for (a, b) in edges:
-            sw = core.resolve_switch(F, f, a)
-            lab = sw.labels.get(b)
-            if (sw.subject[1] == 'Eq' and lab is False) or (sw.subject[1] == 'Ne' and lab is True):
-                good.append((a, b))
-        r.check(bool(good) and f.dominated_by_edges(bi, good), 'nonzero', f.loc(bi), 'Ok(capacity) is built only on the capacity != 0 edge (0.4.15)')
+        # the orderings of `capacity` against 0 that hold where Ok(capacity) is built (however the test is written:
+        # `== 0` early return, `!= 0`, `> 0`, `match capacity { 0 => .. }`) must exclude equality
+        regs, n_edges = core.order_constraint(F, f, bi, 0, value=lambda e, cap=cap: canon(e) == cap)
+        r.check(n_edges >= 1 and 'eq' not in regs, 'nonzero', f.loc(bi), 'Ok(capacity) is built only where capacity != 0 holds (0.4.15)')
     nones = [bi for bi, si, pl, rv, ln in f.stmts() if rv[0] == 'aggr' and rv[2].endswith('Option::None')]
     edges = core.guard_edges(F, f, [P + 'state::State::is_send_streaming'], lambda l: l is False)
     r.check(bool(nones) and bool(edges) and all(f.dominated_by_edges(n, edges) for n in nones), 'none-iff-not-streaming', f.file, 'Ready(None) only when !is_send_streaming')
